@@ -1,4 +1,5 @@
 import Texel.Model.SnapF
+import Texel.Proofs.Depth
 /-! # C08 — a tile matrix's result does not depend on which others are requested
 
 Model: `snapPolygonF` / `processLevels` / `processLevel` (`Model/SnapF.lean`). Levels stand for tile matrix ids
@@ -98,7 +99,7 @@ theorem processLevels_entry (g : Grid) (hot : Nat → Quad → Bool) (cfg : Conf
 /-- **C08 (independence, same index)**: with the index of the polygon fixed, the geometry returned for a tile matrix `z` is the
 same whether `z` is requested alone or together with any other tile matrices — for every polygon, configuration and grid.
 (Requesting a deeper tile matrix changes the index depth; that the per-level result does not depend on the depth for a
-round grid is `C08_round_grid` below / the `snap` correspondence on round grids.) -/
+round grid is `C08_depth_independent` / `C08_independent` below.) -/
 theorem C08_alone_eq_together (g : Grid) (hot : Nat → Quad → Bool) (cfg : Config) (rings : List (List Pt))
     (levels : List Nat) (hnd : levels.Nodup) (z : Nat) (hz : z ∈ levels)
     (together alone : List (Nat × Array Poly))
@@ -107,6 +108,31 @@ theorem C08_alone_eq_together (g : Grid) (hot : Nat → Quad → Bool) (cfg : Co
   rw [processLevels_entry g hot cfg rings levels hnd together ht z hz polys,
       processLevels_entry g hot cfg rings [z] (by simp) alone ha z (by simp) polys]
 
+/-- **C08 (round grid)**: two indexes over the same extent whose span divides evenly into the pixels of both depths (`SameExtent`: same
+origin, `2^depth₁·res₁ = 2^depth₂·res₂`) compute the same result for every level both reach — the depth of the index, which follows
+the deepest requested tile matrix, does not matter -/
+theorem C08_depth_independent (g₁ g₂ : Grid) (h : SameExtent g₁ g₂) (rings : List (List Pt)) (as₁ as₂ : List Quad)
+    (i1 : insertAll g₁ rings = some as₁) (i2 : insertAll g₂ rings = some as₂) (cfg : Config) (l : Nat) (h1 : l ≤ g₁.depth) (h2 : l ≤ g₂.depth) :
+    processLevel g₁ (hotOf g₁ as₁) cfg l rings = processLevel g₂ (hotOf g₂ as₂) cfg l rings :=
+  C08_round_grid g₁ g₂ h rings as₁ as₂ i1 i2 cfg l h1 h2
+
+/-- **C08 (independence)**: on a round grid, the geometry returned for tile matrix level `z` when it is requested alone (index `g₁`, of
+depth `z` or more) equals the geometry returned for it when requested together with any other tile matrices (index `g₂`, as deep as
+the deepest of them) -/
+theorem C08_independent (g₁ g₂ : Grid) (h : SameExtent g₁ g₂) (rings : List (List Pt)) (cfg : Config)
+    (z : Nat) (h1 : z ≤ g₁.depth) (h2 : z ≤ g₂.depth) (levels : List Nat) (hnd : levels.Nodup) (hz : z ∈ levels)
+    (alone together : List (Nat × Array Poly))
+    (ha : snapPolygonF g₁ rings [z] cfg = .ok alone) (ht : snapPolygonF g₂ rings levels cfg = .ok together)
+    (as₁ as₂ : List Quad) (i1 : insertAll g₁ rings = some as₁) (i2 : insertAll g₂ rings = some as₂)
+    (polys : Array Poly) : (z, polys) ∈ alone ↔ (z, polys) ∈ together := by
+  unfold snapPolygonF at ha ht
+  rw [i1] at ha
+  rw [i2] at ht
+  simp only at ha ht
+  rw [processLevels_entry g₁ _ cfg rings [z] (by simp) alone ha z (by simp) polys,
+      processLevels_entry g₂ _ cfg rings levels hnd together ht z hz polys,
+      C08_round_grid g₁ g₂ h rings as₁ as₂ i1 i2 cfg z h1 h2]
+
 -- non-vacuity: a triangle on a 16-pixel grid requested on levels 3 and 4 together and on level 3 alone
 def gEx : Grid := ⟨0, 0, 4, 4⟩
 def triEx : List (List Pt) := [[⟨2, 2⟩, ⟨50, 3⟩, ⟨30, 50⟩]]
@@ -114,5 +140,7 @@ def triEx : List (List Pt) := [[⟨2, 2⟩, ⟨50, 3⟩, ⟨30, 50⟩]]
 --  evaluated by the compiler with `#guard`; they show that the hypotheses `… = .ok …` are met by concrete inputs)
 #guard (snapPolygonF gEx triEx [3, 4] ⟨false, false, false⟩).toOption.map (·.map (·.1)) == some [3, 4]
 #guard (snapPolygonF gEx triEx [3] ⟨false, false, false⟩).toOption.map (·.map (·.1)) == some [3]
+-- the same extent at depth 3 (pixels of 8 units) and depth 4 (pixels of 4 units): `SameExtent` is satisfiable
+example : SameExtent ⟨0, 0, 8, 3⟩ ⟨0, 0, 4, 4⟩ := ⟨rfl, rfl, by decide, by decide, by decide⟩
 
 end Texel.C08
